@@ -536,6 +536,44 @@ fn tied_case<T: Sc>(rng: &mut Rng, case: u64, out: &mut CaseOut) {
     out.nontrivial.push(spec.hash());
 }
 
+/// many basis functions (24..100 columns of a well-conditioned table): iteration budgets and sweep
+/// counts inside the decomposition must scale with the size of the matrix
+fn wide_basis_case<T: Sc>(rng: &mut Rng, case: u64, out: &mut CaseOut) {
+    let stream = "many-basis-functions";
+    let m = rng.int(24, 100);
+    let n = m + rng.int(0, 60);
+    let s = *rng.pick(&[1usize, 1, 2]);
+    let base = Mat::from_fn(n, m, |_, _| rng.normal());
+    let slope = vec![Mat::from_fn(n, m, |_, _| rng.normal() * 0.1)];
+    let y = Mat::from_fn(n, s, |_, _| rng.normal() * 3.0);
+    let w = if rng.chance(0.5) { Some((0..n).map(|_| rng.range(0.3, 2.0) * rng.sign()).collect()) } else { None };
+    let spec = ProblemSpec { model: ModelKind::Table { n, m, p: 1, base, slope }, alpha0: vec![rng.normal()], y, w, eps: None, mrhs: s > 1 || rng.chance(0.3), par: rng.chance(0.3) };
+    let Ok(mut prob) = build_problem::<T>(&spec, &SpyCtl::new()) else {
+        violation(out, stream, case, "valid problem rejected by the builder", spec.to_json());
+        return;
+    };
+    out.seen("many_basis_functions_M", format!("{}", m / 10 * 10));
+    for step in 0..2 {
+        let alpha: Vec<f64> = prob.params().iter().map(|v| v.w()).collect();
+        match prob.coeffs() {
+            Some(c) => {
+                let before = out.violations.len();
+                check_state::<T>(out, stream, case, &spec, &widen(&prob.weighted_data()), &alpha, &widen(&c), T::EPS, if step == 0 { "many basis functions, after build" } else { "many basis functions, after set_params" });
+                if out.violations.len() > before {
+                    return;
+                }
+            }
+            None => {
+                out.evals += 1;
+                violation(out, stream, case, format!("finite {n}x{m} basis matrix but no coefficients are reported"), json!({"N": n, "M": m, "alpha": alpha}));
+                return;
+            }
+        }
+        prob.set_params(&DVector::from_vec(vec![T::of(rng.normal())]));
+    }
+    out.nontrivial.push(spec.hash());
+}
+
 fn kf1_witness_case(_rng: &mut Rng, case: u64, out: &mut CaseOut) {
     let stream = "kf1-witnesses";
     let mut rng = Rng::new(0xC01_0000 + case);
@@ -554,7 +592,7 @@ fn kf1_witness_case(_rng: &mut Rng, case: u64, out: &mut CaseOut) {
 
 pub fn run(ctx: &Ctx) {
     ctx.run_cases("kf1-witnesses", 6, 30.0, kf1_witness_case);
-    ctx.rule("[tied-singular-values: orthogonal basis functions of equal norm - scaled unit vectors in one or two groups, Hadamard sign patterns, box-car indicators with equal counts - with no, constant or sign-flipped constant weights, so that singular values of W·Phi tie exactly] states: zoo models Z1-Z4 (builder-made and hand-written) x data with 1..7 columns of different magnitude x six weight classes x f32/f64 x sequential/parallel, checked after build and after each of 1..5 parameter updates with alpha drawn 0.4x..2.5x around the generating values; fit-trajectories: every state the optimizer visited (ProblemSpy); designed-rank: singular values fixed by construction >=16x or <=1/16 of default/user/negative thresholds; threshold-boundary: one-column model with singular value exactly at / one ulp above the threshold; duplicate-columns; linearity: columns [y1,y2,a*y1+b*y2]. A case is non-trivial when the residual exceeds 1e-3 of the weighted data and (weights are non-constant or S>1), or is a designed rank/boundary case; distinct = distinct (problem, alpha) hashes");
+    ctx.rule("[many-basis-functions: well-conditioned tables with 24..100 columns and up to 160 rows] [tied-singular-values: orthogonal basis functions of equal norm - scaled unit vectors in one or two groups, Hadamard sign patterns, box-car indicators with equal counts - with no, constant or sign-flipped constant weights, so that singular values of W·Phi tie exactly] states: zoo models Z1-Z4 (builder-made and hand-written) x data with 1..7 columns of different magnitude x six weight classes x f32/f64 x sequential/parallel, checked after build and after each of 1..5 parameter updates with alpha drawn 0.4x..2.5x around the generating values; fit-trajectories: every state the optimizer visited (ProblemSpy); designed-rank: singular values fixed by construction >=16x or <=1/16 of default/user/negative thresholds; threshold-boundary: one-column model with singular value exactly at / one ulp above the threshold; duplicate-columns; linearity: columns [y1,y2,a*y1+b*y2]. A case is non-trivial when the residual exceeds 1e-3 of the weighted data and (weights are non-constant or S>1), or is a designed rank/boundary case; distinct = distinct (problem, alpha) hashes");
     ctx.assume("oracle: own Householder QR / one-sided Jacobi SVD in f64; Phi from the zoo's closed formulas evaluated in the scalar type under test");
     ctx.assume("strict-certificate failures are attributed to KF-1 only when the dependency's measured SVD reconstruction error explains them (DESIGN 3.4)");
     let t = ctx.tier;
@@ -565,5 +603,6 @@ pub fn run(ctx: &Ctx) {
     ctx.run_cases("threshold-boundary", t.pick(1000, 40000), b, |r, c, o| if c % 2 == 0 { boundary_case::<f32>(r, c, o) } else { boundary_case::<f64>(r, c, o) });
     ctx.run_cases("duplicate-columns", t.pick(1000, 40000), b, |r, c, o| if c % 3 == 0 { duplicate_case::<f32>(r, c, o) } else { duplicate_case::<f64>(r, c, o) });
     ctx.run_cases("linearity", t.pick(3000, 120000), b, |r, c, o| if c % 3 == 0 { linearity_case::<f32>(r, c, o) } else { linearity_case::<f64>(r, c, o) });
+    ctx.run_cases("many-basis-functions", t.pick(300, 12000), b, |r, c, o| if c % 3 == 0 { wide_basis_case::<f32>(r, c, o) } else { wide_basis_case::<f64>(r, c, o) });
     ctx.run_cases("tied-singular-values", t.pick(3000, 120000), b, |r, c, o| if c % 3 == 0 { tied_case::<f32>(r, c, o) } else { tied_case::<f64>(r, c, o) });
 }
